@@ -64,4 +64,51 @@ theorem lam_treeH {d : Dump} (h : WF d) : ∀ (f : Nat) (o : Obj), o ∈ d.objs 
       obtain ⟨x, hx, rfl⟩ := List.mem_map.mp hc
       exact ih x (childObjs_mem_objs hx)
 
+
+/-! ### re-insertion oracle (C01 engine): every loaded topology must be a fixed point of its own construction
+
+The objects of the loaded tree, taken in post-order (children before parents, the order in which a back end discovers a
+hierarchy bottom-up) and inserted one by one into an empty root by the MODEL of `hwloc___insert_object_by_cpuset`, must rebuild
+exactly the loaded tree (same parents, same order).  This ties the model's set and type-order comparisons to every real
+topology of every run, for all object types (the Group-insertion engine only inserts Groups). -/
+
+/-- the tree keyed by complete cpuset (what `hwloc_obj_cmp_sets` compares when both objects have one), Groups unmergeable (they
+exist in the final topology), memory children ignored -/
+def treeC (d : Dump) : Nat → Obj → T
+  | 0, o => .node { gp := o.gp, type := o.type, key := o.ccpuset.getD 0, ckey := o.ccpuset.getD 0, dm := true,
+                    kind := ((o.attrs[1]?).getD 0).toNat, subkind := ((o.attrs[2]?).getD 0).toNat } []
+  | f + 1, o => .node { gp := o.gp, type := o.type, key := o.ccpuset.getD 0, ckey := o.ccpuset.getD 0, dm := true,
+                        kind := ((o.attrs[1]?).getD 0).toNat, subkind := ((o.attrs[2]?).getD 0).toNat }
+                  ((childObjs d o).map (treeC d f))
+
+mutual
+def postOrder : T → List IObj
+  | .node o kids => postOrderL kids ++ [o]
+def postOrderL : List T → List IObj
+  | [] => []
+  | c :: cs => postOrder c ++ postOrderL cs
+end
+
+mutual
+def preOrder : T → List IObj
+  | .node o kids => o :: preOrderL kids
+def preOrderL : List T → List IObj
+  | [] => []
+  | c :: cs => preOrder c ++ preOrderL cs
+end
+
+/-- `none` = not applicable (a CPU-less normal object below a non-root parent: it would be inserted below the root),
+`some b` = the re-insertion rebuilds the tree -/
+def reinsertAgrees (t : T) : Option Bool :=
+  match t with
+  | .node ro kids =>
+    if (postOrderL kids).any (fun o => o.key == 0) then none
+    else
+      -- bottom-up (children before parents: the new object adopts children) and top-down (parents first: the new object
+      -- descends) discovery orders must both rebuild the tree
+      let ok (l : List IObj) : Bool := match insAll (.node ro []) l with
+        | some t' => rows 0 t' == rows 0 t
+        | none => false
+      some (ok (postOrderL kids) && ok (preOrderL kids))
+
 end Hw.Topo.Ins
